@@ -92,7 +92,7 @@ class C04(props.Prop):
                                   jobs=(1, 1, 2, 3),
                                   model_style=rng.choice(
                                       ['hash', 'mixed', 'contains', 'count']),
-                                  out_modes=('', '', '--pretty-print'),
+                                  out_modes=('', '', '--pretty-print', '--wrap-lines'),
                                   text=text)
         spec['input_kind'] = kind
         spec['damage'] = dmg
